@@ -275,9 +275,21 @@ def connecting_beta(path):
     return best
 
 
-def attenuation_exponent_oracle(path, f):
-    """integral of ds / L(z, f) along the ray"""
+def attenuation_exponent_oracle(path, f, latt=None):
+    """integral of ds / L(z, f) along the ray; latt(ice, z) replaces ice.attenuation_length(z, f) when the attenuation
+    length is to be read from the ice's current public data rather than from the method under test"""
+    if latt is not None:
+        return ray_integral_oracle(path, lambda ice, z: 1.0 / float(latt(ice, z)))
     return ray_integral_oracle(path, lambda ice, z: 1.0 / float(ice.attenuation_length(z, f)))
+
+
+def arasim_table_length(ice, z):
+    """ArasimIce's attenuation length as documented: linear interpolation of its CURRENT public table
+    (atten_depths, atten_lengths) at depth -z, the end segments continued linearly outside the table"""
+    xs, ys = np.asarray(ice.atten_depths, float), np.asarray(ice.atten_lengths, float)
+    d = -float(z)
+    i = int(np.clip(np.searchsorted(xs, d) - 1, 0, len(xs) - 2))
+    return ys[i] + (ys[i + 1] - ys[i]) * (d - xs[i]) / (xs[i + 1] - xs[i])
 
 
 def tof_oracle(path):
@@ -1059,7 +1071,7 @@ def probes(ctx, cases_in):
 
 
 # ---------------------------------------------------------------------------- inputs of every Signal kind
-INPUT_KINDS = ["signal", "function:gauss", "function:triangle", "function:buffered", "function:sum", "function:scaled",
+INPUT_KINDS = ["signal", "empty", "signal:int-values", "function:gauss", "function:triangle", "function:buffered", "function:sum", "function:scaled",
                "askaryan", "noise"]
 
 
@@ -1091,6 +1103,15 @@ def make_input(kind, rng):
     if kind == "signal":
         x = np.array([rng.gauss(0, 1) for _ in range(n)]) * amp
         return pyrex.Signal(times, x, value_type=field), [(times, lambda t, x=x: x, 0)], times
+    if kind == "empty":
+        ty = rng.choice([field, None, pyrex.Signal.Type.voltage])
+        return pyrex.EmptySignal(times, value_type=ty), [(times, lambda t: np.zeros(len(t)), 0)], times
+    if kind == "signal:int-values":
+        # integer-typed values given as a Python list (the time grid stays float: Signal.shift adds the delay in place,
+        # which NumPy refuses for an integer array -- a limitation of Signal.shift itself, outside this property)
+        xi = [int(rng.randrange(-5, 6)) for _ in range(n)]
+        xf = np.array(xi, float)
+        return pyrex.Signal(list(times), xi, value_type=field), [(times, lambda t, xf=xf: xf, 0)], times
     if kind in ("function:gauss", "function:triangle"):
         g = gauss if kind.endswith("gauss") else triangle
         return pyrex.FunctionSignal(times, g, value_type=field), [(times, g, 0)], times
@@ -1252,6 +1273,18 @@ def probe_inputs(ctx, cases_in):
                              "%s.propagate(%s input) without polarization is not the input x attenuation(|f|) per frequency (max error %.3g > %.3g)" % (kname, kind, err, tol), rep)
                 if not (np.array_equal(t_s1, times + tof) and np.array_equal(t_p1, times + tof) and np.array_equal(t_o1, times + tof)):
                     ctx.fail("inputs-grid:%s:%s" % (kname, kind), "%s.propagate(%s input): output times are not input times + tof" % (kname, kind), rep)
+                # the outputs and the caller's signal are separate objects that share no array
+                arrs = {"input.times": np.asarray(sig.times), "s.times": np.asarray(s1.times), "p.times": np.asarray(p1.times),
+                        "unpolarized.times": np.asarray(o1.times), "second s.times": np.asarray(s2.times)}
+                names = list(arrs)
+                shared = [(a_, b_) for i_, a_ in enumerate(names) for b_ in names[i_ + 1:] if np.shares_memory(arrs[a_], arrs[b_])]
+                vals_ = {"input.values": getattr(sig, "_values", None) if not hasattr(sig, "_functions") else None,
+                         "s.values": s1.__dict__.get("values"), "p.values": p1.__dict__.get("values")}
+                vn = [k_ for k_, v_ in vals_.items() if isinstance(v_, np.ndarray)]
+                shared += [(a_, b_) for i_, a_ in enumerate(vn) for b_ in vn[i_ + 1:] if np.shares_memory(vals_[a_], vals_[b_])]
+                if shared or s1 is sig or p1 is sig or s1 is p1 or o1 is sig:
+                    ctx.fail("inputs-shared-arrays:%s:%s" % (kname, kind),
+                             "%s.propagate(%s input): outputs / input are not independent objects (shared arrays: %s)" % (kname, kind, shared), rep)
                 stats["repeat"] += 1
                 if not (np.array_equal(v_s1, v_s2) and np.array_equal(v_p1, v_p2)):
                     ctx.fail("inputs-repeat:%s:%s" % (kname, kind),
@@ -1368,6 +1401,156 @@ def probe_path_histories(ctx, cases_in):
     ctx.extra["path_history_counts"] = stats
 
 
+# ---------------------------------------------------------------------------- histories on ONE ice-model object
+def fresh_ice_like(ice):
+    """a newly constructed ice model with the public attributes the given one has NOW"""
+    from pyrex.ice_model import UniformIce
+    cls = type(ice)
+    if isinstance(ice, UniformIce):
+        new = cls(ice.n, valid_range=tuple(float(v) for v in ice.valid_range), index_above=ice._index_above, index_below=ice._index_below)
+    else:
+        new = cls(n0=ice.n0, k=ice.k, a=ice.a, valid_range=tuple(float(v) for v in ice.valid_range),
+                  index_above=ice._index_above, index_below=ice._index_below)
+    for tab in ("atten_depths", "atten_lengths"):
+        if hasattr(ice, tab):
+            setattr(new, tab, [float(v) for v in np.asarray(getattr(ice, tab), float)])
+    return new
+
+
+def probe_ice_histories(ctx):
+    """Histories on ONE ice-model object: trace and propagate with it (anything cached is now cached), change its public
+    data -- attenuation table, profile parameters, valid range; by assignment, by in-place edit of an array the object holds,
+    on a copy.copy of the used object -- and trace again.  Every path traced afterwards must equal the path traced with a
+    newly constructed ice model that has the same public attributes, and for the tabulated model the attenuation must be
+    the quadrature of ds / L with L read from the object's current table."""
+    import copy as _copy
+    import pyrex
+    import pyrex.ice_model as im
+    from pyrex.ray_tracing import SpecializedRayTracer, BasicRayTracer, UniformRayTracer
+    rng = ctx.rng
+    stats = {"histories": 0, "changes": {}, "paths_compared": 0, "table_oracle": 0, "originals_rechecked": 0}
+    freqs = np.array([1e8, 6e8, -3e8])
+
+    def trace(ice, a, b, basic):
+        if isinstance(ice, im.UniformIce):
+            rt = UniformRayTracer(a, b, ice)
+            rt.max_reflections = 1
+        else:
+            rt = (BasicRayTracer if basic else SpecializedRayTracer)(a, b, ice)
+        return solutions_of(rt) or []
+
+    def observe(paths, times, x, pol):
+        out = []
+        for p_ in paths:
+            with np.errstate(all="ignore"):
+                (ss, sp), _ = call_propagate(p_, pyrex.Signal(times, x, value_type=pyrex.Signal.Type.field), pol, None)
+                out.append((float(p_.tof), np.asarray(p_.attenuation(freqs), float), np.array(ss.values, float), np.array(sp.values, float)))
+        return out
+
+    def same(o1, o2):
+        return len(o1) == len(o2) and all(a_[0] == b_[0] and np.array_equal(a_[1], b_[1], equal_nan=True) and np.array_equal(a_[2], b_[2], equal_nan=True)
+                                          and np.array_equal(a_[3], b_[3], equal_nan=True) for a_, b_ in zip(o1, o2))
+    for it in range(ctx.n(10, 120)):
+        name = ["ArasimIce", "ArasimIce", "AntarcticIce", "GreenlandIce", "UniformIce"][it % 5]
+        if name == "UniformIce":
+            ice = im.UniformIce(rng.uniform(1.4, 1.7), valid_range=(-1000.0, 0.0), index_above=1.0, index_below=rng.choice([None, 1.9]))
+        else:
+            ice = getattr(im, name)()
+        basic = name != "UniformIce" and rng.random() < 0.3
+        a, b = [0.0, 0.0, rng.uniform(-900.0, -150.0)], [rng.uniform(30.0, 400.0), rng.uniform(-50.0, 50.0), rng.uniform(-400.0, -30.0)]
+        times, x = rand_signal(rng, 8)
+        pol = rand_pol(rng)
+        stats["histories"] += 1
+        ops = []
+        try:
+            first = observe(trace(ice, a, b, basic), times, x, pol)            # first use: whatever is memoised is memoised now
+        except Exception:
+            continue
+        target, original_obs = ice, None
+        for step in range(rng.randint(1, 3)):
+            routes = ["assign"]
+            if name == "ArasimIce":
+                what = rng.choice(["atten_lengths", "atten_lengths", "atten_depths"])
+                routes += ["inplace", "copy-then-assign"]
+            elif name == "UniformIce":
+                what = rng.choice(["n", "valid_range"])
+                routes += ["copy-then-assign"]
+            else:
+                what = rng.choice(["k", "a", "n0", "valid_range"])
+                routes += ["copy-then-assign"]
+            how = rng.choice(routes)
+            if how == "copy-then-assign":
+                original_obs = (target, observe(trace(target, a, b, basic), times, x, pol))
+                target = _copy.copy(target)
+            fac = rng.choice([0.5, 0.8, 1.25, 2.0])
+            if what in ("atten_lengths", "atten_depths"):
+                cur = np.asarray(getattr(target, what), float)
+                newv = cur * (fac if what == "atten_lengths" else rng.choice([0.9, 1.1]))
+                if how == "inplace":
+                    if not isinstance(target.__dict__.get(what), np.ndarray):
+                        setattr(target, what, np.array(cur))               # the instance's own array, then edited in place
+                        observe(trace(target, a, b, basic), times, x, pol)
+                    target.__dict__[what][:] = newv
+                else:
+                    setattr(target, what, rng.choice([list, np.array])(newv))
+            elif what == "valid_range":
+                vr = (float(target.valid_range[0]) - rng.choice([0.0, 150.0]), float(target.valid_range[1]))
+                target.valid_range = vr
+            elif what == "n":
+                target.n = float(target.n) * rng.choice([0.95, 1.05])
+            elif what == "k":
+                target.k = float(target.k) * rng.choice([0.9, 1.05])
+            elif what == "a":
+                target.a = float(target.a) * rng.choice([0.9, 1.1])
+            else:
+                target.n0 = float(target.n0) + rng.choice([-0.02, 0.02])
+            ops.append({"op": how, "attribute": what, "value": [float(v) for v in np.atleast_1d(np.asarray(getattr(target, what), float))][:80]})
+            kk = "%s:%s:%s" % (name, what, how)
+            stats["changes"][kk] = stats["changes"].get(kk, 0) + 1
+            rep = {"kind": "ice_history", "ice": name, "from": a, "to": b, "basic": basic, "ops": [dict(o) for o in ops], "times": [float(t) for t in times],
+                   "x": [float(v) for v in x], "polarization": [float(v) for v in pol]}
+            ctx.case(key=("ice_history", it, step))
+            try:
+                paths = trace(target, a, b, basic)
+                got = observe(paths, times, x, pol)
+                ref = observe(trace(fresh_ice_like(target), a, b, basic), times, x, pol)
+            except Exception:
+                break
+            stats["paths_compared"] += len(got)
+            if not same(got, ref):
+                j = next((i_ for i_, (g_, r_) in enumerate(zip(got, ref)) if not same([g_], [r_])), 0)
+                ctx.fail("ice-stale:%s:%s:%s" % (name, what, how),
+                         "%s after `%s` of %s (the object had been used before): rays traced with it differ from rays traced with a new %s that has the same attributes (attenuation %s vs %s, delay %.9g vs %.9g s)" % (
+                             name, how, what, name, got[j][1].tolist() if got else None, ref[j][1].tolist() if ref else None,
+                             got[j][0] if got else float("nan"), ref[j][0] if ref else float("nan")), rep)
+                break
+            if name == "ArasimIce":
+                for p_, g_ in zip(paths, got):
+                    try:
+                        with np.errstate(all="ignore"):
+                            I_or = attenuation_exponent_oracle(p_, 6e8, latt=arasim_table_length)
+                        I_code = -math.log(float(g_[1][1])) if g_[1][1] > 0 else float("inf")
+                        stats["table_oracle"] += 1
+                        if np.isfinite(I_or) and I_or > 0 and not abs(I_code - I_or) <= attenuation_allowance(p_, 6e8, I_or):
+                            ctx.fail("ice-table:%s:%s" % (what, how),
+                                     "ArasimIce after `%s` of %s: attenuation exponent %.6g, but the quadrature of ds / L with L from the object's current table gives %.6g" % (how, what, I_code, I_or), rep)
+                            break
+                    except Exception as ex:
+                        stats["oracle_errors"] = stats.get("oracle_errors", 0) + 1
+                        stats.setdefault("oracle_error_sample", repr(ex)[:200])
+            if original_obs is not None:
+                stats["originals_rechecked"] += 1
+                try:
+                    again = observe(trace(original_obs[0], a, b, basic), times, x, pol)
+                except Exception:
+                    again = None
+                if again is not None and not same(again, original_obs[1]):
+                    ctx.fail("ice-copy-shared:%s:%s" % (name, what), "changing %s on a copy.copy of a used %s changed the rays traced with the original object" % (what, name), rep)
+                    break
+    ctx.extra["ice_history_counts"] = stats
+    ctx.oblige("probe:ice-oracles-ran", stats.get("oracle_errors", 0) == 0, "%d oracle evaluations raised: %s" % (stats.get("oracle_errors", 0), stats.get("oracle_error_sample", "")))
+
+
 # ---------------------------------------------------------------------------- entry points
 def run(ctx):
     ctx.rule = ("geometries: random endpoints for SpecializedRayTracer, BasicRayTracer, UniformRayTracer (1-3 reflections, index above/below varied, total "
@@ -1394,6 +1577,7 @@ def run(ctx):
         probes(ctx, cases)
         probe_inputs(ctx, cases)
         probe_path_histories(ctx, cases)
+        probe_ice_histories(ctx)
         return
     ok = ctx.coq_build("C03")
     pins = current_pins()
@@ -1414,12 +1598,51 @@ def run(ctx):
     t2 = time.time()
     probe_inputs(ctx, cases)
     probe_path_histories(ctx, cases)
+    probe_ice_histories(ctx)
     ctx.extra["timing_s"] = {"correspondence": round(t1 - t0, 1), "probes": round(t2 - t1, 1), "input_probes": round(time.time() - t2, 1)}
+
+
+def replay_ice_history(obj):
+    import copy as _copy
+    import pyrex
+    import pyrex.ice_model as im
+    from pyrex.ray_tracing import SpecializedRayTracer, BasicRayTracer, UniformRayTracer
+    name = obj["ice"]
+    ice = im.UniformIce(1.5, valid_range=(-1000.0, 0.0), index_above=1.0) if name == "UniformIce" else getattr(im, name)()
+
+    def att(i_):
+        if name == "UniformIce":
+            rt = UniformRayTracer(obj["from"], obj["to"], i_)
+        else:
+            rt = (BasicRayTracer if obj.get("basic") else SpecializedRayTracer)(obj["from"], obj["to"], i_)
+        return [np.asarray(p_.attenuation(np.array([1e8, 6e8]))).tolist() for p_ in (solutions_of(rt) or [])]
+    print("first use, attenuation(1e8, 6e8) per solution:", att(ice))
+    target = ice
+    for o_ in obj["ops"]:
+        if o_["op"] == "copy-then-assign":
+            target = _copy.copy(target)
+        val = o_["value"]
+        if o_["attribute"] in ("atten_lengths", "atten_depths"):
+            if o_["op"] == "inplace":
+                setattr(target, o_["attribute"], np.array(np.asarray(getattr(target, o_["attribute"]), float)))
+                att(target)
+                target.__dict__[o_["attribute"]][:] = np.asarray(val)
+            else:
+                setattr(target, o_["attribute"], list(val))
+        elif o_["attribute"] == "valid_range":
+            target.valid_range = tuple(val)
+        else:
+            setattr(target, o_["attribute"], val[0])
+        print("after %s of %s: this object  ->" % (o_["op"], o_["attribute"]), att(target))
+        print("                 a new %s with the same attributes ->" % name, att(fresh_ice_like(target)))
 
 
 def replay(ctx, obj):
     import pyrex
     print(json.dumps(obj, indent=1, default=str)[:3000])
+    if obj.get("kind") == "ice_history":
+        replay_ice_history(obj)
+        return 1
     if "geometry" not in obj:
         return 1
     rt = rebuild(obj["geometry"])
